@@ -1298,6 +1298,8 @@ func (e *vestEnv) predicates(ctx sdk.Context, op *vestOp, pre *vestSnap, res opR
 		e.checkWithdrawEvents(op, pre, post, res)
 		_, existed := pre.accBytes[op.to]
 		rep.Eval("C08.recipient_was_absent", !existed, c, st, op.term)
+		// C06: coins of a pool leave it (apart from the owner's withdrawal of matured coins) only into a newly created vesting account
+		rep.Eval("C06.pool_coins_leave_only_into_a_new_account", !existed, c, st, op.term+": the recipient already had an account")
 		// the send's own withdrawal part (paid to the owner) is separate from the amount sent
 		gotBal := post.bal[op.to].AmountOf(BondDenom).BigInt()
 		rep.Eval("C08.recipient_gets_amount", gotBal.Cmp(op.amount) == 0, c, st, fmt.Sprintf("got %v want %v", gotBal, op.amount))
